@@ -263,6 +263,15 @@ def init (e : Env) : St :=
   let n := e.offsets.length
   { workers := e.offsets.zipIdx.map fun (o, i) => { pos := o, next := if i + 1 < n then some (i + 1) else none } }
 
+/-- the number of workers and their start offsets as `IndexFromFile` computes them for a file of
+    `size` bytes when `n` workers are requested (`nn := size/max + 1; if nn < n { n = nn }`,
+    `span := size / n`, `start := span * i`) -/
+def offsetsOf (size max n : Nat) : List Nat :=
+  let nn := Gen.parNN size max
+  let n := if Gen.parNNCond nn n then nn else n
+  let span := Gen.parSpan size n
+  (List.range n).map fun i => Gen.parStart span i
+
 /-- the single-stream chunk sequence from a position on -/
 def seqFrom (e : Env) : Nat → Nat → List Chunk
   | 0, _ => []
